@@ -23,6 +23,7 @@ import (
 	"io"
 	"net"
 	"net/http"
+	"net/url"
 	"os"
 	"os/exec"
 	"path/filepath"
@@ -237,6 +238,7 @@ type caseT struct {
 	Exec    bool   `json:"exec,omitempty"`  // one of the generations in a fresh process
 	App     bool   `json:"app,omitempty"`   // also serve the operations from two app instances and compare body and ETag
 	Cold    bool   `json:"cold,omitempty"`  // first-use concurrency: 8 goroutines validate for the first time in a fresh process
+	Mid     *caseT `json:"mid,omitempty"`   // another document generated between two generations of this one
 	Seq     bool   `json:"seq,omitempty"`   // the app OpenAPI state: registrations interleaved with a running generation
 }
 
@@ -375,6 +377,8 @@ func classify(err error) string {
 		return "dupop"
 	case strings.Contains(m, "invalid response code"):
 		return "status"
+	case strings.Contains(m, "invalid style"):
+		return "style"
 	case strings.Contains(m, "requires 'paths'"):
 		return "nopaths"
 	case strings.Contains(m, "spec validation failed"):
@@ -1200,8 +1204,21 @@ func (e *encT) def(l *hx.Line, t reflect.Type) {
 		l.Tok("F")
 		str(l, f.Name)
 		l.Bool(f.IsExported())
-		for _, k := range []string{"json", "validate", "query", "path", "header", "cookie", "default"} {
+		for _, k := range []string{"json", "validate", "query", "path", "header", "cookie", "default", "style", "explode"} {
 			str(l, f.Tag.Get(k))
+		}
+		// type identity after one pointer level (inferFormat compares with net.IP and url.URL)
+		ft := f.Type
+		if ft.Kind() == reflect.Pointer {
+			ft = ft.Elem()
+		}
+		switch ft {
+		case reflect.TypeFor[net.IP]():
+			str(l, "ip")
+		case reflect.TypeFor[url.URL]():
+			str(l, "url")
+		default:
+			str(l, "")
 		}
 		if !f.IsExported() && !f.Anonymous {
 			l.Tok("P").Tok("other") // never inspected by the generator
@@ -1448,6 +1465,17 @@ func emit(id string, c *caseT, st *hx.Stats) string {
 			again := generate(c, false)
 			stable = again.kind == "D" && bytes.Equal(again.json, off.json)
 		}
+		// a three-step sequence in one process: this document, ANOTHER document (other types, other
+		// tags on the same types), this document again — the third must equal the first
+		if c.Mid != nil && stable {
+			_ = generate(c.Mid, false)
+			_ = generate(c.Mid, true)
+			again := generate(c, false)
+			stable = again.kind == "D" && bytes.Equal(again.json, off.json)
+			if st != nil {
+				st.Count("sequence_with_other_document")
+			}
+		}
 		// (every case whose operations carry slices or maps the generator might keep — tags, security,
 		// extensions, examples — and a third of the others)
 		if c.carriesCollections() || sha256.Sum256(off.json)[0]%3 == 0 {
@@ -1659,7 +1687,8 @@ func genTX(r *hx.Rand, d int) TX {
 var defaultValues = []string{"5", "0", "42", "abc", "true", "false", "x", "007", "1", "T"}
 var dynNames = []string{"A", "B", "C", "Id", "Name", "Items", "Next", "When"}
 var dynJSON = []string{"id", "name", "a", "b", "items", "next"}
-var dynValidate = []string{"", "", "required", "required,email", "min=1,max=10", "gt=0,lte=9", "oneof=a b", "len=4",
+var dynValidate = []string{"excludes=admin", "startswith=ab,endswith=z", "contains=x", "alpha", "numeric,required", "ip", "datetime=2006-01-02", "ne=5",
+	"", "", "required", "required,email", "min=1,max=10", "gt=0,lte=9", "oneof=a b", "len=4",
 	"minlen=1,maxlen=3", "uuid", "url,required", "alphanum", "omitempty,max=3", "min=x"}
 
 // genStruct: an anonymous struct type over corpus types (reflect.StructOf)
@@ -1695,6 +1724,18 @@ func genStruct(r *hx.Rand, d int, req bool) TX {
 			tags = append(tags, fmt.Sprintf(`%s:"%s"`, loc, hx.Pick(r, params)))
 			if r.Chance(1, 3) {
 				tags = append(tags, fmt.Sprintf(`default:"%s"`, hx.Pick(r, defaultValues)))
+			}
+			if r.Chance(1, 5) {
+				st := map[string][]string{"path": {"simple", "label", "matrix"}, "query": {"form", "deepObject", "pipeDelimited", "spaceDelimited"},
+					"header": {"simple"}, "cookie": {"form"}}[loc]
+				v := hx.Pick(r, st)
+				if r.Chance(1, 6) {
+					v = hx.Pick(r, []string{"form", "simple", "deepObject", "bogus"}) // possibly not admissible for the location
+				}
+				tags = append(tags, fmt.Sprintf(`style:"%s"`, v))
+			}
+			if r.Chance(1, 6) {
+				tags = append(tags, fmt.Sprintf(`explode:"%s"`, hx.Pick(r, []string{"true", "false", "yes"})))
 			}
 		} else {
 			switch r.Intn(8) {
@@ -1877,6 +1918,13 @@ func genCase(r *hx.Rand) caseT {
 	for i := 0; i < n; i++ {
 		c.Ops = append(c.Ops, genOp(r))
 	}
+	if r.Chance(1, 12) && len(c.Ops) > 0 {
+		m := caseT{V31: r.Chance(1, 2)}
+		for i, n := 0, r.Range(1, 3); i < n; i++ {
+			m.Ops = append(m.Ops, genOp(r))
+		}
+		c.Mid = &m
+	}
 	// an explicit operationId equal to the id another route generates (either visiting order)
 	if len(c.Ops) >= 2 && r.Chance(1, 10) {
 		if res := generate(&c, false); res.kind == "D" {
@@ -1959,6 +2007,21 @@ func fixedCases() []caseT {
 						Resps: []respT{{200, TX{K: "data", I: 1}}, {404, ct("pa.Item")}},
 						Ex:    map[int][]exT{1: {{"schema-like", "s", 4}, {"hal", "", 5}}}},
 					{Ctor: "POST", Path: "/forms", Summary: "s", Resps: []respT{{201, TX{K: "data", I: 10}}, {400, TX{K: "data", I: 6}}}}}},
+			// well-known types with a fixed JSON form, plain — then, in between, the same types behind
+			// pointers and with constraints — then plain again (same process)
+			caseT{V31: v31, Ops: []opT{{Ctor: "GET", Path: "/wk", Resps: ok(ct("pa.WellKnown"))}},
+				Mid: &caseT{V31: v31, Ops: []opT{{Ctor: "GET", Path: "/wk2", Resps: ok(ct("pa.WellKnownPtr"))},
+					{Ctor: "GET", Path: "/wk3", Summary: "s", Req: &TX{K: "corpus", I: idx("pa.WellKnownPtr")}}}}},
+			// a wrapper struct whose only field is an embedded struct that refers back to it, entered
+			// through the wrapper and through the inner type
+			caseT{V31: v31, Ops: []opT{{Ctor: "GET", Path: "/cat", Resps: []respT{{200, ct("pa.CatNode")}}}}},
+			caseT{V31: v31, Ops: []opT{{Ctor: "GET", Path: "/cat", Resps: []respT{{200, ct("pa.Cat")}, {201, ct("pa.CatNode")}}}}},
+			// validator rules the generator does not interpret, object-typed parameters in every location,
+			// style / explode tags (admissible), and a style that is not admissible for its location (K07l)
+			caseT{V31: v31, Ops: []opT{{Ctor: "GET", Path: "/rules/:id", Summary: "s", Req: &TX{K: "corpus", I: idx("pa.ObjParams")},
+				Resps: ok(ct("pa.Rules"))}}},
+			caseT{V31: v31, Ops: []opT{{Ctor: "GET", Path: "/st/:id", Summary: "s", Req: &TX{K: "struct", F: []FX{
+				{Name: "ID", Tag: `path:"id" style:"form"`, T: TX{K: "prim", P: "int"}}}}}}},
 			// the app's OpenAPI state: operations registered while a specification is being generated
 			caseT{V31: v31, Seq: true, Ops: []opT{
 				{Ctor: "GET", Path: "/early", Summary: "early", Resps: ok(ct("pa.Item"))},
